@@ -923,7 +923,8 @@ func jsonCases(c runCfg, prop string) ([]*scratch.Pkg, []string, map[string]inte
 				one.DiscMap = map[string]string{"first": vnames[0]}
 				accepted[0] = append(accepted[0], "first")
 				for vi, vn := range vnames {
-					alias := fmt.Sprintf("name%d", vi)
+					// (discriminator values are free text: bytes that HTML or URL escapers rewrite, an apostrophe, a space)
+					alias := fmt.Sprintf("name%d", vi) + []string{"", "&co", "<b>", "'s", " x", "%41", "+1"}[(vi+pi)%7]
 					one.DiscMap[alias] = vn
 					accepted[vi] = append(accepted[vi], alias)
 				}
